@@ -46,7 +46,7 @@ const (
 )
 
 type SrvIn struct {
-	Kind  string `json:"kind"` // http | tcp | sni | grpc | inetaf
+	Kind  string `json:"kind"` // http | https | prom | tcp | sni | grpc | inetaf
 	Work  []*int `json:"work"`
 	HWork []*int `json:"hwork,omitempty"` // inetaf only: work on the https child
 	// tcp/sni/inetaf: connections whose handler is still dialling a black-holed upstream (DialTimeout 30 s, as
@@ -64,6 +64,13 @@ type SrvIn struct {
 	// ListenAndServe* call until Pending ms after proxy.Shutdown was called. A start that has not registered by
 	// then must not produce a listener afterwards.
 	Pending int `json:"pending,omitempty"`
+	// any kind, no work: ListenAndServe* is called only Late ms AFTER proxy.Shutdown began (and before it returned or
+	// not — the registry was swapped at the very beginning). The excluded point of
+	// no_accept_after_shutdown_begins_partial: such a listener goes into the fresh registry and nothing closes it.
+	Late int `json:"late,omitempty"`
+	// http, https, tcp, sni: the listener expects the PROXY protocol (config option pxyproto=true); the clients send
+	// a PROXY v1 header first
+	PP bool `json:"pp,omitempty"`
 }
 
 type ScenarioIn struct {
@@ -99,7 +106,11 @@ func (in *ScenarioIn) validate() error {
 	}
 	for _, s := range in.Servers {
 		switch s.Kind {
-		case "http", "tcp", "sni", "grpc":
+		case "prom":
+			if len(s.Work)+len(s.WS) > 0 {
+				return errors.New("the prometheus listener carries no scripted work")
+			}
+		case "http", "https", "tcp", "sni", "grpc":
 			if len(s.HWork) > 0 {
 				return errors.New("hwork on a single-listener server")
 			}
@@ -120,7 +131,18 @@ func (in *ScenarioIn) validate() error {
 				}
 			}
 		}
-		if len(s.WS) > 0 && s.Kind != "http" && s.Kind != "inetaf" {
+		if s.PP && s.Kind != "http" && s.Kind != "https" && s.Kind != "tcp" && s.Kind != "sni" {
+			return errors.New("pp: only http, https, tcp and sni listeners")
+		}
+		if s.Late != 0 {
+			if s.Late < 20 || s.Late > 1000 || s.Pending != 0 {
+				return errors.New("late outside [20,1000] ms, or combined with pending")
+			}
+			if len(s.Work)+len(s.HWork)+len(s.WS) > 0 || s.Dial != 0 || s.Removed {
+				return errors.New("late: a listener that does not exist yet carries no work")
+			}
+		}
+		if len(s.WS) > 0 && s.Kind != "http" && s.Kind != "https" && s.Kind != "inetaf" {
 			return errors.New("websocket sessions only through an http or https+tcp+sni listener")
 		}
 		if s.Pending != 0 {
@@ -249,6 +271,7 @@ type server struct {
 	toBlackhole atomic.Bool
 	lookups     atomic.Int32
 	// pending start: releases the address; startErr is what ListenAndServe* returned, once it has
+	pp       bool
 	free     func()
 	returned atomic.Bool
 	startErr error
@@ -281,7 +304,7 @@ func occupy(addr string) (func(), error) {
 	return func() { once.Do(func() { syscall.Close(fd) }) }, nil
 }
 
-func startServer(kind string, u *upstreams, pending bool) (*server, error) {
+func startServer(si SrvIn, u *upstreams, pending bool) (*server, error) {
 	var addr string
 	var err error
 	var free func()
@@ -299,8 +322,22 @@ func startServer(kind string, u *upstreams, pending bool) (*server, error) {
 			return nil, err
 		}
 	}
+	return startServerOn(si, u, addr, free)
+}
+
+func startServerAt(si SrvIn, u *upstreams, addr string) (*server, error) {
+	return startServerOn(si, u, addr, nil)
+}
+
+func startServerOn(si SrvIn, u *upstreams, addr string, free func()) (*server, error) {
+	kind := si.Kind
+	pending := free != nil
 	s := &server{kind: kind, addr: addr, errc: make(chan error, 1), free: free}
 	l := config.Listen{Addr: addr}
+	if si.PP {
+		l.ProxyProto, l.ProxyHeaderTimeout = true, 250*time.Millisecond
+	}
+	s.pp = si.PP
 	gopts := grpcProxyOpts(u)
 	bh, _ := blackhole() // "" when the host cannot build one; scenarios with pending dials then fail to set up
 	fixed := func(a string) func(string) *route.Target {
@@ -326,6 +363,10 @@ func startServer(kind string, u *upstreams, pending bool) (*server, error) {
 		switch kind {
 		case "http":
 			err = proxy.ListenAndServeHTTP(l, httpProxy(), nil)
+		case "https":
+			err = proxy.ListenAndServeHTTP(l, httpProxy(), &tls.Config{Certificates: []tls.Certificate{u.cert}})
+		case "prom":
+			err = proxy.ListenAndServePrometheus(l, config.Prometheus{Path: "/metrics"}, nil)
 		case "tcp":
 			err = proxy.ListenAndServeTCP(l, &tcp.Proxy{DialTimeout: dialTimeout, Lookup: fixed(u.tcpAddr)}, nil)
 		case "sni":
@@ -410,15 +451,30 @@ func wsClient(it *item, c net.Conn, host string) {
 	it.set("cut", fmt.Sprintf("%q %v", l2, err))
 }
 
-func startWS(kind, addr string, it *item) {
+// dialPP connects to addr and, for a listener that expects the PROXY protocol, sends a PROXY v1 header first.
+func dialPP(addr string, pp bool) (net.Conn, error) {
+	c, err := net.DialTimeout("tcp", addr, 2*time.Second)
+	if err != nil {
+		return nil, err
+	}
+	if pp {
+		if _, err := io.WriteString(c, "PROXY TCP4 192.0.2.7 127.0.0.1 51234 443\r\n"); err != nil {
+			c.Close()
+			return nil, err
+		}
+	}
+	return c, nil
+}
+
+func startWS(kind, addr string, pp bool, it *item) {
 	go func() {
-		d := &net.Dialer{Timeout: 2 * time.Second}
-		var c net.Conn
-		var err error
-		if kind == "inetaf" {
-			c, err = tls.DialWithDialer(d, "tcp", addr, &tls.Config{ServerName: sniHTTPSName, InsecureSkipVerify: true})
-		} else {
-			c, err = d.Dial("tcp", addr)
+		c, err := dialPP(addr, pp)
+		if err == nil && (kind == "inetaf" || kind == "https") {
+			tc := tls.Client(c, &tls.Config{ServerName: sniHTTPSName, InsecureSkipVerify: true})
+			if err = tc.Handshake(); err != nil {
+				c.Close()
+			}
+			c = tc
 		}
 		if err != nil {
 			it.set("cut", "dial: "+err.Error())
@@ -428,11 +484,15 @@ func startWS(kind, addr string, it *item) {
 	}()
 }
 
-func startWork(kind string, https bool, addr string, it *item) {
+func startWork(kind string, https bool, addr string, pp bool, it *item) {
+	if kind == "https" {
+		https = true
+	}
 	switch {
-	case kind == "http" || (kind == "inetaf" && https):
+	case kind == "http" || kind == "https" || (kind == "inetaf" && https):
 		go func() {
 			tr := &http.Transport{DisableKeepAlives: true}
+			tr.DialContext = func(ctx context.Context, network, a string) (net.Conn, error) { return dialPP(a, pp) }
 			scheme := "http"
 			if https {
 				scheme = "https"
@@ -454,7 +514,7 @@ func startWork(kind string, https bool, addr string, it *item) {
 		}()
 	case kind == "tcp":
 		go func() {
-			c, err := net.DialTimeout("tcp", addr, 2*time.Second)
+			c, err := dialPP(addr, pp)
 			if err != nil {
 				it.set("cut", "dial: "+err.Error())
 				return
@@ -463,13 +523,18 @@ func startWork(kind string, https bool, addr string, it *item) {
 		}()
 	case kind == "sni" || kind == "inetaf":
 		go func() {
-			d := &net.Dialer{Timeout: 2 * time.Second}
-			c, err := tls.DialWithDialer(d, "tcp", addr, &tls.Config{ServerName: sniTCPName, InsecureSkipVerify: true})
+			c, err := dialPP(addr, pp)
 			if err != nil {
-				it.set("cut", "tls dial: "+err.Error())
+				it.set("cut", "dial: "+err.Error())
 				return
 			}
-			lineClient(it, c)
+			tc := tls.Client(c, &tls.Config{ServerName: sniTCPName, InsecureSkipVerify: true})
+			if err := tc.Handshake(); err != nil {
+				c.Close()
+				it.set("cut", "tls handshake: "+err.Error())
+				return
+			}
+			lineClient(it, tc)
 		}()
 	case kind == "grpc":
 		go func() {
@@ -506,9 +571,9 @@ func startWork(kind string, https bool, addr string, it *item) {
 
 // startDial opens a connection whose handler will get stuck dialling the black hole. The client's view: the
 // connection stays silent until the proxy closes it.
-func startDial(kind, addr string, it *item) {
+func startDial(kind, addr string, pp bool, it *item) {
 	go func() {
-		c, err := net.DialTimeout("tcp", addr, 2*time.Second)
+		c, err := dialPP(addr, pp)
 		if err != nil {
 			it.set("cut", "dial: "+err.Error())
 			return
@@ -567,10 +632,10 @@ func runOnce(in *ScenarioIn) (*ScenarioOut, error) {
 	}
 	srvs = make([]*server, len(in.Servers))
 	for i, si := range in.Servers {
-		if si.Pending != 0 {
-			continue // started last, just before the shutdown
+		if si.Pending != 0 || si.Late != 0 {
+			continue // started last: just before the shutdown / after it began
 		}
-		s, err := startServer(si.Kind, u, false)
+		s, err := startServer(si, u, false)
 		if err != nil {
 			cleanup()
 			return nil, err
@@ -582,19 +647,19 @@ func runOnce(in *ScenarioIn) (*ScenarioOut, error) {
 			w := workRef{newItem(), e}
 			all = append(all, w)
 			perSrv[i][0] = append(perSrv[i][0], w)
-			startWork(si.Kind, false, srvs[i].addr, w.it)
+			startWork(si.Kind, false, srvs[i].addr, si.PP, w.it)
 		}
 		for _, e := range si.HWork {
 			w := workRef{newItem(), e}
 			all = append(all, w)
 			perSrv[i][1] = append(perSrv[i][1], w)
-			startWork(si.Kind, true, srvs[i].addr, w.it)
+			startWork(si.Kind, true, srvs[i].addr, si.PP, w.it)
 		}
 		for _, e := range si.WS {
 			w := workRef{newItem(), e}
 			all = append(all, w)
 			perSrv[i][3] = append(perSrv[i][3], w)
-			startWS(si.Kind, srvs[i].addr, w.it)
+			startWS(si.Kind, srvs[i].addr, si.PP, w.it)
 		}
 	}
 	inflight := time.After(5 * time.Second)
@@ -622,7 +687,7 @@ func runOnce(in *ScenarioIn) (*ScenarioOut, error) {
 			w := workRef{newItem(), nil}
 			all = append(all, w)
 			perSrv[i][2] = append(perSrv[i][2], w)
-			startDial(si.Kind, srvs[i].addr, w.it)
+			startDial(si.Kind, srvs[i].addr, si.PP, w.it)
 		}
 		until := time.Now().Add(5 * time.Second)
 		for int(srvs[i].lookups.Load()) < si.Dial {
@@ -656,7 +721,7 @@ func runOnce(in *ScenarioIn) (*ScenarioOut, error) {
 		if si.Pending == 0 {
 			continue
 		}
-		s, err := startServer(si.Kind, u, true)
+		s, err := startServer(si, u, true)
 		if err != nil {
 			cleanup()
 			return nil, err
@@ -686,6 +751,39 @@ func runOnce(in *ScenarioIn) (*ScenarioOut, error) {
 			w := w
 			timers = append(timers, time.AfterFunc(time.Duration(*w.end)*time.Millisecond, w.it.Release))
 		}
+	}
+	// listeners started after the shutdown began: the address is reserved now, ListenAndServe* is called Late ms on
+	anyLate := false
+	var lateMu sync.Mutex
+	var lateErr error
+	for i, si := range in.Servers {
+		if si.Late == 0 {
+			continue
+		}
+		anyLate = true
+		addr, err := freeAddr()
+		if err != nil {
+			cleanup()
+			return nil, err
+		}
+		ph := &server{kind: si.Kind, addr: addr, errc: make(chan error, 1)} // stands for the listener in srvs
+		srvs[i] = ph
+		si := si
+		d := time.Duration(si.Late) * time.Millisecond
+		if d > lastFree {
+			lastFree = d
+		}
+		timers = append(timers, time.AfterFunc(d, func() {
+			s, err := startServerAt(si, u, addr)
+			if err != nil {
+				lateMu.Lock()
+				lateErr = err
+				lateMu.Unlock()
+				ph.errc <- err
+				return
+			}
+			ph.errc <- <-s.errc
+		}))
 	}
 	done := make(chan time.Duration, 1)
 	go func() {
@@ -717,7 +815,7 @@ func runOnce(in *ScenarioIn) (*ScenarioOut, error) {
 		}
 	}
 	// an address that was busy while its listener was being started is watched until well after it became free
-	if anyPending {
+	if anyPending || anyLate {
 		until := t0.Add(lastFree + pendingWatchMs*time.Millisecond)
 		for time.Now().Before(until) {
 			for i, s := range srvs {
@@ -725,9 +823,18 @@ func runOnce(in *ScenarioIn) (*ScenarioOut, error) {
 					out.Accepted[i] = true
 					out.Notes = append(out.Notes, fmt.Sprintf("%s %s (start pending when shutdown began, address free %d ms after) accepted a connection %d ms after shutdown began", s.kind, s.addr, in.Servers[i].Pending, time.Since(t0).Milliseconds()))
 				}
+				if in.Servers[i].Late != 0 && !out.Accepted[i] && probe(s.addr) {
+					out.Accepted[i] = true
+					out.Notes = append(out.Notes, fmt.Sprintf("%s %s (ListenAndServe called %d ms after shutdown began) accepted a connection %d ms after shutdown began", s.kind, s.addr, in.Servers[i].Late, time.Since(t0).Milliseconds()))
+				}
 			}
 			time.Sleep(40 * time.Millisecond)
 		}
+		lateMu.Lock()
+		if lateErr != nil {
+			out.Notes = append(out.Notes, "late start failed: "+lateErr.Error())
+		}
+		lateMu.Unlock()
 		for i, s := range srvs {
 			if in.Servers[i].Pending != 0 {
 				if s.returned.Load() {
@@ -796,8 +903,8 @@ func suspicious(in *ScenarioIn, out *ScenarioOut) bool {
 	if out.Dur == "over" {
 		return true
 	}
-	for _, a := range out.Accepted {
-		if a {
+	for i, a := range out.Accepted {
+		if a && in.Servers[i].Late == 0 { // a late start is expected to accept: nothing to re-measure
 			return true
 		}
 	}
